@@ -452,7 +452,11 @@ def _run(ctx, module, args):
     broken = [o for o in obligations if not o.ok]
     # 4. a broken obligation is not by itself a violation: search the real code
     searched = False
-    if broken and not [v for v in ctx.violations]:
+    known_pre = load_known(pid)
+    unlisted_pre = [v for v in ctx.violations if match_known(v, known_pre) is None]
+    if broken and not unlisted_pre:
+        # (violations that are all recorded known findings do not explain a broken
+        # obligation: still search)
         searched = True
         s = getattr(module, 'search', None)
         if s is not None:
